@@ -7,11 +7,11 @@ MODULES = ["Prelude", "C10_Model", "C10_Spec", "C10_Check"]
 PROPS_MODULE = "C10_Properties"
 THEOREMS = ["C10_resolves_iff", "C10_at_most_one", "C10_no_capture", "C10_deleted_stop_resolving",
             "C10_tls_of_owner", "C10_host_normalisation", "C10_request_ignores_sni",
-            "C10_retained_names_never_drop",
+            "C10_retained_names_never_drop", "C10_concurrent_sync_captures_name_witness",
             "C10_stale_names_after_failed_sync_witness"]
 EVAL = "C10_Check.eval"
 CLAUSES = ["agree", "resolves_iff", "same_tenant", "no_capture", "deleted_stop", "tls_of_owner", "host_norm", "alive",
-           "request_by_host", "mid_update"]
+           "request_by_host", "mid_update", "serial_delivery"]
 RULE = ("distinct histories (op lists) in which at least two clusters are stored at some moment and at least one "
         "alias is added to, removed from or refused for a cluster (an update changes a server-name list, a delete "
         "removes a cluster with aliases, or admission refuses a colliding name)")
@@ -23,8 +23,10 @@ TRUSTED_BASE = [
     "(PEM blobs are identified by index), client-go transports, strings.ToLower beyond ASCII, net.ParseIP",
 ]
 ASSUMPTIONS = [
-    "events reach syncUpstreamCluster one at a time (the controller runs one worker) and the lister already "
-    "contains the event's object (informer order)",
+    "CHECKED on the code (clause serial_delivery): events reach syncUpstreamCluster one at a time - under the real "
+    "Run() with several events queued at once, no two sync handler executions are in progress together; "
+    "C10_concurrent_sync_captures_name_witness shows why the theorems need it; the lister already contains the "
+    "event's object (informer order)",
     "theorems: admission sees the same store as the controller, so stored objects are pairwise name-disjoint; the "
     "executable spec also judges histories with admission races (a field-valid object that collides with another "
     "cluster's name reaches the store, is rejected by the controller and requeued): it judges a step when the stored "
@@ -120,14 +122,46 @@ def coq_hosts(case):
     return clist([cpair(cstr(h), cstr(sni_of(h))) for h in case["hosts"]])
 
 
+BROKEN_CASE = ("{| c_hosts := [(\"x\", \"x\")]; c_xps := []; c_mid := false; c_steps := [(ODelete \"x\", {| t_valid := true; "
+               "t_fvalid := true; t_delivered := true; t_res := 3; t_hosts := []; t_x := []; t_mid := [] |})]; "
+               "c_burst := None |}")
+
+
+def coq_burst(case, obs):
+    """several objects enqueued at once under the real Run(): the model replays them in the order in which the
+    sync handler executions started"""
+    if not isinstance(obs, dict) or "panic" in obs or "order" not in obs:
+        return BROKEN_CASE
+    byname = {bytes(o["name"]): o for o in case["burst"]}
+    order = [bytes(n) for n in obs["order"]]
+    if sorted(order) != sorted(byname) or len(obs["hosts"]) != len(case["hosts"]):
+        objs = []          # an object was handled twice or never: disagree visibly (handled / results differ)
+    else:
+        objs = [byname[n] for n in order]
+    share = {}
+    hs = []
+    for h in obs["hosts"]:
+        t = coq_host_obs(h)
+        share.setdefault(t, "h%d" % len(share))
+        hs.append(share[t])
+    lets = "".join("let %s := %s in " % (n, t) for t, n in share.items())
+    b = ("{| b_objs := %s; b_maxc := %s; b_res := %s; b_handled := %s; b_final := %s |}" %
+         (clist([coq_obj(o) for o in objs]), cZ(obs["maxc"]), clist([cZ(RESCODE.get(r, 3)) for r in obs["res"]]),
+          cZ(obs["handled"]), clist(hs)))
+    return "(%s{| c_hosts := %s; c_xps := []; c_mid := false; c_steps := []; c_burst := Some %s |})" % (
+        lets, coq_hosts(case), b)
+
+
 def coq_case(case, obs):
+    if case.get("burst"):
+        return coq_burst(case, obs)
     share = {}   # identical host observations are bound once (let) to keep the case files small
     st = coq_steps(case, obs, share)
     if st is None:  # panic in the harness: a case that disagrees visibly
-        return "{| c_hosts := [(\"x\", \"x\")]; c_xps := []; c_mid := false; c_steps := [(ODelete \"x\", {| t_valid := true; t_fvalid := true; t_delivered := true; t_res := 3; t_hosts := []; t_x := []; t_mid := [] |})] |}"
+        return BROKEN_CASE
     lets = "".join("let %s := %s in " % (n, t) for t, n in share.items())
     xps = clist([cpair(cstr(x[0]), cstr(x[1])) for x in case.get("xp", [])])
-    return "(%s{| c_hosts := %s; c_xps := %s; c_mid := %s; c_steps := %s |})" % (
+    return "(%s{| c_hosts := %s; c_xps := %s; c_mid := %s; c_steps := %s; c_burst := None |})" % (
         lets, coq_hosts(case), xps, cbool(case.get("mid", False)), st)
 
 
@@ -158,6 +192,22 @@ def mk(ops, names, views=False, clusters=()):
             "mid": True, "via": len(ops) % 2,
             "ops": ops, "clusters": [B(c) for c in clusters],
             "schemas": [B(s) for s in c10gen.SCHEMAS] + [B(b""), B(b"nosuch")], "fresh": [0, 0, 0], "views": views}
+
+
+def mkburst(objs, names):
+    return {"hosts": [B(h) for h in c10gen.hosts_for(names)], "xp": [], "ops": [], "burst": objs, "clusters": [],
+            "schemas": [], "fresh": [0, 0, 0], "views": False}
+
+
+def gen_burst(rng):
+    clusters = rng.sample(c10gen.CLUSTERS, rng.randint(3, 4))
+    aliases = rng.sample(c10gen.ALIASES[:6], 3)
+    objs = []
+    for nm in clusters:
+        o = c10gen.gen_obj(rng, nm, aliases)
+        o["sn"] = [B(rng.choice(aliases))] if rng.chance(2, 3) else []   # few aliases: collisions are frequent
+        objs.append(o)
+    return mkburst(objs, list(clusters) + aliases)
 
 
 def corpus():
@@ -195,6 +245,11 @@ def corpus():
                  [b"a", b"b", b"x", b"y"]))
     cs.append(mk([AP(O(b"b", sn=[b"a"])), AP(O(b"a", sn=[b"z"], gates=[(1, 1)]), force=True), RETRY(1), DEL(b"b"),
                   AP(O(b"a")), RETRY(1), DEL(b"a"), RETRY(1)], [b"a", b"b", b"z"]))
+    # several events in the queue at once under the REAL Run(): the sync handler must never run twice at the same
+    # time (two clusters claiming one name would both pass the conflict check: seeded/C10-g)
+    cs.append(mkburst([O(b"a", sn=[b"x"]), O(b"b", sn=[b"x"]), O(b"c", sn=[b"y"])], [b"a", b"b", b"c", b"x", b"y"]))
+    cs.append(mkburst([O(b"a", sn=[b"x"], cert=1, key=1), O(b"b", sn=[b"y"], ca=2), O(b"c"), O(b"a.b", sn=[b"z"])],
+                      [b"a", b"b", b"c", b"a.b", b"x", b"y", b"z"]))
     # DenyAllRequests gate, forced collisions (admission bypassed), delete of a never created cluster
     cs.append(mk([AP(O(b"a", sn=[b"x"], gates=[(1, 1)])), AP(O(b"b", sn=[b"x"]), force=True), AP(O(b"x"), force=True),
                   DEL(b"a"), RETRY(1), RETRY(2), DEL(b"x"), DEL(b"b"), DEL(b"c")], [b"a", b"b", b"x", b"c"]))
@@ -219,6 +274,8 @@ def generate(rng, tier, scale=1):
         c = c10gen.gen_conflict_history(rng)
         c["views"] = False
         cs.append(c)
+    for _ in range((4 if tier == "quick" else 40) * scale):   # bursts under the real Run(): 0.3 s of real waiting each
+        cs.append(gen_burst(rng))
     for _ in range(n_rob * scale):        # outside the quantifier: admission bypassed, invalid objects
         c = c10gen.gen_history(rng, p_force=25, p_invalid=12, p_retry=10)
         c["views"] = False
@@ -229,6 +286,8 @@ def generate(rng, tier, scale=1):
 def nontrivial_key(case, obs):
     if "panic" in obs:
         return None
+    if case.get("burst"):
+        return ("burst", repr(case["burst"])) if len(obs.get("order", [])) >= 3 else None
     stored = set()
     two = False
     alias_change = False
@@ -260,6 +319,8 @@ def nontrivial_key(case, obs):
 def stats(case, obs):
     if "panic" in obs:
         return ["panic"]
+    if case.get("burst"):
+        return ["burst:n=%d" % len(case["burst"]), "burst:maxc=%s" % obs.get("maxc")] + ["burst->" + r for r in obs.get("res", [])]
     labs = ["len<=%d" % (5 * ((len(case["ops"]) + 4) // 5))]
     for p, s in zip(case["ops"], obs.get("steps", [])):
         if p["op"] == "apply":
@@ -270,6 +331,12 @@ def stats(case, obs):
 
 
 def shrink(case):
+    if case.get("burst"):
+        b = case["burst"]
+        for i in range(len(b)):
+            if len(b) > 2:
+                yield dict(case, burst=b[:i] + b[i + 1:])
+        return
     ops = case["ops"]
     for i in range(len(ops)):
         rest = ops[:i] + ops[i + 1:]
